@@ -66,6 +66,14 @@ def replay(ctx, path):
                 del args[i:i + 2]
         if det.get("group"):
             args += ["-groups", det["group"]]
+    if "/firstuse/" in r.get("key", "") and "variant" in det:   # first-use probe: no behaviour file is involved
+        if "-in" in args:
+            i = args.index("-in")
+            del args[i:i + 2]
+        if "-firstuse" in args:
+            i = args.index("-firstuse")
+            del args[i:i + 2]
+        args += ["-firstuse", str(det["variant"]), "-groups", det["group"]]
     ctx.seed = r.get("seed", ctx.seed)
     ctx.tier = r.get("tier", ctx.tier)
     binary = ctx.build(tags=r.get("tags", "verif"), race=bool(r.get("race")), pkg=r.get("pkg", "./cmd/vh"))
